@@ -167,7 +167,7 @@ impl Check for Controller {
                     }
                     let got = c.try_schedule_op(&id, &fname, &args_of(*k), &zero, &salt(*k), &d, &a(*proposer)).is_ok();
                     let exp = *signed && *proposer == 1 && m.st[*k] == S::Unset && d >= m.min;
-                    st.hit(if got { "tx.ok" } else { "tx.refused" });
+                    st.tx("schedule_op", got);
                     if got != exp {
                         return Err(violation("roles.schedule_cancel_execute", "schedule_op", i, format!("{s:?}: real {got} model {exp}; {m:?}")));
                     }
@@ -181,7 +181,7 @@ impl Check for Controller {
                     }
                     let got = c.try_cancel_op(&ids[*k], &a(*canceller)).is_ok();
                     let exp = *signed && *canceller == 1 && matches!(m.st[*k], S::Pending(_));
-                    st.hit(if got { "tx.ok" } else { "tx.refused" });
+                    st.tx("cancel_op", got);
                     if got != exp {
                         return Err(violation("roles.schedule_cancel_execute", "cancel_op", i, format!("{s:?}: real {got} model {exp}; {m:?}")));
                     }
@@ -229,7 +229,7 @@ impl Check for Controller {
                     let got = c.try_update_delay(&cfg.delays[*k]).is_ok();
                     let snapshot = m.clone();
                     let exp = m.self_exec(cfg, *k, *meta, *executor_signs);
-                    st.hit(if got { "tx.ok" } else { "tx.refused" });
+                    st.tx(&format!("self_admin.{:?}", meta), got);
                     match (&exp, got) {
                         (Exp::Fail, true) => {
                             let check = if matches!(meta, Meta::Empty | Meta::Void | Meta::WrongSalt | Meta::WrongPred) || !was_ready { "payload.short_or_mismatched_rejected" } else { "self_admin.needs_executor" };
